@@ -11,7 +11,7 @@
    the real analyser (missing definition, array without items), compared with the implementation on every run.
    PARTIAL: that the recursion ends (no Fuel outcome with enough fuel, i.e. no unbounded recursion through references)
    is decided on the implementation only (worker processes observe fatal stack overflow and hangs). *)
-From GS Require Import Base.Str Gen.GenDiffTables Tools.DiffTypes Tools.DiffSpec Tools.DiffModel Tools.DiffModelLemmas Tools.DiffIdentity Tools.DiffTotal.
+From GS Require Import Base.Str Gen.GenDiffTables Tools.DiffTypes Tools.DiffSpec Tools.DiffModel Tools.DiffModelLemmas Tools.DiffIdentity Tools.DiffTotal Tools.DiffExt Tools.DiffExtLemmas.
 
 Theorem C12_total : forall fuel a b, closed_swaggerb a = true -> closed_swaggerb b = true -> analyse fuel a b <> Panic.
 Proof. exact analyse_total. Qed.
@@ -58,6 +58,28 @@ Example C12_panic_on_dangling_ref :
   let bad := {| sw_consumes := None; sw_produces := None; sw_schemes := None; sw_host := []; sw_basepath := []; sw_info_desc := [];
                 sw_paths := []; sw_defs := [(s "A", Schema [] [s "object"] [] [] no_vals None [(s "x", ref_to (s "Missing"))] [] [])] |} in
   closed_swaggerb bad = false /\ analyse 5 bad bad = Panic.
+Proof. split; vm_compute; reflexivity. Qed.
+
+(* the vendor-extension pass (root, info, contact, license, tags, security definitions, path items, operations, their
+   responses objects, parameters, response headers, response schemas down their items): a document against itself
+   reports no extension difference, and so does the whole command *)
+Theorem C12_extensions_identity : forall x ds, wf_xdoc x = true -> analyse_ext x x = Ok ds -> ds = [].
+Proof. exact analyse_ext_refl. Qed.
+Print Assumptions C12_extensions_identity.
+
+Theorem C12_identity_with_extensions : forall fuel a x ds, wf_swaggerb a = true -> wf_xdoc x = true ->
+  analyse_all fuel a a x x = Ok ds -> ds = [].
+Proof. exact analyse_all_identity. Qed.
+Print Assumptions C12_identity_with_extensions.
+
+Definition sample_x : xdoc :=
+  {| xd_ext := [(s "x-order", DInt 1)]; xd_info := [(s "x-owner", DStr (s "alpha"))]; xd_contact := Some []; xd_license := None;
+     xd_tags := [(s "pets", [(s "x-flags", DArr [DStr (s "a"); DInt 0])])]; xd_secdefs := [(s "key", [(s "x-internal", DBool true)])];
+     xd_paths := [(s "/pets", {| xi_ext := [(s "x-order", DInt 2)]; xi_params := [(q_limit, [(s "x-owner", DStr (s "beta"))])];
+        xi_ops := [(s "post", {| xo_ext := [(s "x-internal", DBool false)]; xo_resp_ext := [(s "x-flags", DInt 1)]; xo_params := [(b_pet, [])];
+                                 xo_resps := [(200%Z, {| xr_headers := [(s "X-Total", [(s "x-order", DInt 0)])];
+                                                         xr_body := [(ref_to (s "Pet"), [])] |})] |})] |})] |}.
+Example C12_extensions_nonvacuous : wf_xdoc sample_x = true /\ analyse_all 12 sample_doc sample_doc sample_x sample_x = Ok [].
 Proof. split; vm_compute; reflexivity. Qed.
 
 Theorem C12_compare_props_refl : forall x, compare_props x x = Ok [].
